@@ -361,6 +361,13 @@ def run(model, col, tier):
     col.check(order == ["imports", "register-all", "type-bodies"], "R10.3", f"{CT}::v_Module registration before resolution",
               "imports, then all functions are registered, then bodies are typed: resolution sees every overload regardless of declaration order",
               f"order is {order}: a call can be resolved before all overloads of its name are registered, so the result depends on declaration order", CT, ctm)
+    # imported and own overloads of a name live in ONE scope: FindFunction stops at the first scope that knows the name, so a
+    # scope pushed between registering the imports and registering the module's functions makes local overloads hide imported ones
+    ctxn_ = ctm.args.args[2].arg
+    pushes_ = [c for c in ast.walk(ctm) if isinstance(c, ast.Call) and ((last_attr(c) in ("append", "insert") and isinstance(c.func, ast.Attribute) and unparse(c.func.value) == ctxn_) or last_attr(c) == "Scope")]
+    col.check(not pushes_, "R10.3", f"{CT}::v_Module one scope for imported and own functions", "v_Module registers everything in the scope it was given",
+              f"`{unparse(pushes_[0])[:60] if pushes_ else ''}` opens another scope inside v_Module: overloads of one name end up in different scopes and only the innermost set takes part in resolution",
+              CT, pushes_[0] if pushes_ else ctm)
     reg = ctv.find_method("__RegisterFunction")
     if reg:
         r_env = _le(reg[1], allow_impure=True)
@@ -409,6 +416,20 @@ def run(model, col, tier):
             opt = [t_ for t_, v in conds.items() if "IsOptional" in t_]
             col.check(bool(opt), "R10.4", f"{TYPES}::Function.Match argument count [fewer arguments]", "fewer arguments are viable only if every surplus parameter is optional",
                       "a call with fewer arguments than parameters is scored without requiring the surplus parameters to be optional", TYPES, rv)
+            # ... and the parameters tested are the surplus ones: <parameters>[len(arguments):]
+            from ..sem import resolve as _resolve
+
+            its_ = []
+            for n_ in ast.walk(fm):
+                if isinstance(n_, (ast.ListComp, ast.GeneratorExp)) and "IsOptional" in unparse(n_.elt):
+                    its_.append(_resolve(n_.generators[0].iter, fm_env))
+                elif isinstance(n_, ast.For) and any("IsOptional" in unparse(s_) for s_ in n_.body):
+                    its_.append(_resolve(n_.iter, fm_env))
+            surplus = bool(its_) and all(isinstance(i_, ast.Subscript) and isinstance(i_.slice, ast.Slice) and i_.slice.upper is None and i_.slice.step is None
+                                         and i_.slice.lower is not None and " ".join(unparse(i_.slice.lower).split()) == f"len({pl})" and unparse(i_.value) == "self.arguments" for i_ in its_)
+            col.check(surplus, "R10.4", f"{TYPES}::Function.Match surplus parameters", f"the optional test runs over self.arguments[len({pl}):]",
+                      f"the optional test runs over {[' '.join(unparse(i_).split()) for i_ in its_]}, not over the parameters that got no argument (self.arguments[len({pl}):]): "
+                      "a call with too few arguments is viable although the missing parameters are not optional (or the other way round)", TYPES, rv)
         else:
             col.bad("R10.4", f"{TYPES}::Function.Match argument count [more arguments]", "a call with more arguments than parameters gets a non-negative score", TYPES, rv)
     # ---------------- R10.5 ------------------------------------------------------
